@@ -17,7 +17,8 @@ ASSUMPTIONS = ["the server double implements our reading of the server's routing
                "restarts happen only when nothing is in flight; eventual delivery is judged at quiescence with every party connected"]
 REQUIRED = ["runs", "wiring:full", "wiring:framed", "messages_sent", "deliveries_checked", "receipts_checked", "frames_scanned", "kind:text", "kind:image",
             "target:group", "target:direct", "fault:dup", "fault:corrupt", "restarts", "sessions_bootstrapped", "retries_seen", "lead_fields_checked", "kind:reply", "threaded_runs", "threaded_yields",
-            "overtaken_cases", "overtaken_sender_held", "overtaken_retry_served_around_hold"]
+            "overtaken_cases", "overtaken_sender_held", "overtaken_retry_served_around_hold",
+            "twin_cases", "twin_composer_held_in_id_generator", "twin_id_pairs_compared"]
 TIMEOUT = {"quick": 600, "thorough": 7200}
 
 KINDS = ["text", "text", "extended", "image", "location", "contact", "link", "reply"]
@@ -515,16 +516,123 @@ def overtaken_case(acc, seed, tag):
     return w
 
 
+def twin_ids_case(acc, seed, tag):
+    """Two application threads of one account each compose a message and send it (composing assigns the message id). The first
+    is held inside the id generator while the second composes and sends; the second message may be damaged in transit, so that
+    the retry is served from the sender's queue BY ID. Every message shown exactly once, with its own receipt, and the two ids
+    differ (a receipt names its message by id only)."""
+    from vf import world, inject
+    import threading as _th
+    r = gen.rng(seed, ID, tag)
+    phones = ["49%d%s" % (i + 1, gen.s_from(r, gen.DIGITS, 8)) for i in range(2)]
+    S, R = phones
+    W = world.World(seed=r.randrange(1 << 30), strategy=r.choice(["uniform", "newest", "app-last"]), batch=30)
+    for p in phones:
+        W.add_client(p)
+    msgs = []
+    seen_targets = set()
+
+    def msg(sender, target, kind, fault=None):
+        m = Msg(len(msgs) + 1, sender, target, kind, r)
+        m.fault = fault
+        m.first_to_target = (sender, target) not in seen_targets
+        seen_targets.add((sender, target))
+        msgs.append(m)
+        return m
+
+    def compose(m):
+        e = m.build(W)
+        m.entity_id = e.getId()
+        if m.fault:
+            W.server.faults.setdefault(m.entity_id, {})[m.fault] = True
+        return e
+
+    def send(m):
+        return {"op": "send", "who": m.sender, "kind": m.kind, "uid": m.uid, "msg": m, "build": (lambda m=m: compose(m))}
+
+    def run_actions(actions):
+        W.script = list(W.script[:W.script_pos]) + actions
+        return W.run(max_steps=W.steps + 6000)
+    w = {"kind": "twin-ids", "tag": tag, "accounts": 2, "latecomer": None}
+    jid = lambda p: "%s@s.whatsapp.net" % p  # noqa
+    try:
+        if not run_actions([{"op": "connect", "who": S}, {"op": "connect", "who": R}, {"op": "wait-quiet"},
+                            send(msg(S, jid(R), "text")), {"op": "wait-quiet"}, send(msg(R, jid(S), "text")), {"op": "wait-quiet"}]):
+            acc.inconc("%s: not quiet after the opening" % tag)
+            return
+        c = W.clients[S]
+        fa, fb = r.choice([(None, None), ("corrupt", None), ("corrupt", None), (None, "corrupt"), ("dup", None), ("corrupt", "dup")])
+        ma = msg(S, jid(R), r.choice(KINDS), fa)
+        mb = msg(S, jid(R), r.choice(KINDS), fb)
+
+        def app_thread(m):
+            def body():
+                e = compose(m)
+                W.log.append(("app-send", m.sender, m.uid, e.getId()))
+                c.app.toLower(e)
+            c.guarded(body, "send:" + m.kind)
+        ta = _th.Thread(target=app_thread, args=(ma,), name="verif-app-sender-0", daemon=True)
+        tb = _th.Thread(target=app_thread, args=(mb,), name="verif-app-sender-1", daemon=True)
+        k = r.choice([1, 2, 2, 2])
+        with inject.PauseAt(("yowsup/structs/protocolentity.py",), k, "verif-app-sender-0", hold=1.0, funcs=("_generateId",)) as pa:
+            W.sender_threads.append(ta)
+            ta.start()
+            if not pa.at_point.wait(10):
+                acc.inconc("%s: the composing thread never reached the id generator" % tag)
+                return
+            acc.count("twin_composer_held_in_id_generator")
+            w["held_at"] = pa.where
+            W.sender_threads.append(tb)
+            tb.start()
+            tb.join(3.0)       # (where the generator is guarded by a lock the second thread waits until the hold is over)
+            pa.release()
+        if not W.run(max_steps=W.steps + 6000):
+            acc.inconc("%s: not quiet after the two sends" % tag)
+            return
+        acc.count("twin_cases")
+        from vf.evidence import h
+        acc.case(h(["twin", tag, w.get("held_at")]), nontrivial=True)
+        w["script"] = [("send", m.sender, m.kind, m.target, m.fault) for m in msgs]
+        ok = True
+        if ma.entity_id is None or mb.entity_id is None:
+            acc.inconc("%s: a message was not composed" % tag)
+            return
+        acc.count("twin_id_pairs_compared")
+        if ma.entity_id == mb.entity_id:
+            acc.violation("two-messages-one-id", "two messages composed by two threads of one account got the same id %s: their receipts (and a retry request) cannot be told apart"
+                          % ma.entity_id, w)
+            ok = False
+        if check_world(acc, W, msgs, {}, w) and ok:
+            acc.count("twin_ok")
+    except Exception:  # noqa: harness-level failure
+        import traceback
+        acc.inconc("%s: twin-ids case crashed: %s" % (tag, traceback.format_exc()[-500:]))
+    finally:
+        try:
+            W.join_senders(5.0)
+            W.close()
+        except Exception:  # noqa
+            pass
+    return w
+
+
 def shards(tier, seed, nworkers):
     q = tier == "quick"
     nsh = 6 if q else nworkers
     return [{"kind": "runs", "shard": i, "n": (420 if q else 25000) // nsh} for i in range(nsh)] + \
-           [{"kind": "overtaken", "shard": i, "n": (12 if q else 320) // nsh} for i in range(nsh)]
+           [{"kind": "overtaken", "shard": i, "n": (12 if q else 320) // nsh} for i in range(nsh)] + \
+           [{"kind": "twin-ids", "shard": i, "n": (12 if q else 320) // nsh} for i in range(nsh)]
 
 
 def run(spec, acc):
     from vf import env
     env.shim_thirdparty()
+    if spec["kind"] == "twin-ids":
+        for i in range(spec["n"]):
+            w = twin_ids_case(acc, spec["seed"], "twin/%d/%d" % (spec["shard"], i))
+            if i < 1 and w:
+                acc.sample(w)
+        return
     if spec["kind"] == "overtaken":
         for i in range(spec["n"]):
             w = overtaken_case(acc, spec["seed"], "ovt/%d/%d" % (spec["shard"], i))
@@ -541,6 +649,9 @@ def run(spec, acc):
 def replay(spec, acc):
     from vf import env
     env.shim_thirdparty()
+    if spec["witness"]["tag"].startswith("twin/"):
+        twin_ids_case(acc, spec["seed"], spec["witness"]["tag"])
+        return
     if spec["witness"].get("kind") == "overtaken" or spec["witness"]["tag"].startswith("ovt/"):
         overtaken_case(acc, spec["seed"], spec["witness"]["tag"])
         return
